@@ -105,7 +105,7 @@ ReadStringPayload(b, p, ty) ==
   ELSE IF ty = STR4 THEN
        IF p + 3 > Len(b) THEN Err
        ELSE LET n == ToNat(Sub(b, p, 4)) IN
-            IF n < 0 \/ p + 3 + n > Len(b) THEN Err ELSE [ok |-> TRUE, val |-> Sub(b, p + 4, n), p |-> p + 4 + n]
+            IF n < 0 \/ n > Len(b) - p - 3 THEN Err ELSE [ok |-> TRUE, val |-> Sub(b, p + 4, n), p |-> p + 4 + n]
   ELSE Err
 
 \* ---------------------------------------------------------------- one tagged primitive field at the front of b
